@@ -1750,15 +1750,9 @@ def induction_local(f, loop_id, name, use_id):
     if top not in order or utop not in order:
         return None
     # nothing may leave the iteration between the two (a `continue` before the update would skip it)
-    lo, hi = sorted((order.index(top), order.index(utop)))
-    if order.index(top) > order.index(utop):
-        for st in order[:order.index(top)]:
-            if any(f.nodes[y]['k'] == 'ContinueStmt' for y in [st] + list(f.descendants(st))):
-                return None
-    else:
-        for st in order[:order.index(top)]:
-            if any(f.nodes[y]['k'] == 'ContinueStmt' for y in [st] + list(f.descendants(st))):
-                return None
+    for st in order[:order.index(top)]:
+        if any(f.nodes[y]['k'] == 'ContinueStmt' for y in [st] + list(f.descendants(st))):
+            return 'skips'     # iterations that `continue` before the update do not advance the counter
     return c0, step, order.index(top) < order.index(utop)
 
 
@@ -1781,6 +1775,8 @@ def id_of_position(f, lp, call_item, arg):
             vals.append(eval(e))
         return 'ok' if vals == [-(k + 1) for k in range(4)] else 'wrong'
     ind = induction_local(f, lp[4], nm, call_item[4] if len(call_item) > 4 and isinstance(call_item[4], int) else lp[4])
+    if ind == 'skips':
+        return 'skips'
     if ind is None:
         return 'unknown'
     c0, step, before = ind
@@ -1838,6 +1834,9 @@ def parameters_writer_rule(prog, res, rule='parameters-write'):
             idv = id_of_position(f, lp, inner[0], sub.get('arg1'))
             if sub.get('this') in elems and idv == 'ok' and sub.get('arg2') == 'local:dataStartPosition':
                 ck.ok('groups', ck.where(lp), 'element i is written with id -(i+1) and the DATA_START position, for every position i: position i <-> id -(i+1)')
+            elif sub.get('this') in elems and idv == 'skips':
+                ck.bad('groups', ck.where(lp), 'the id handed to Group::write (%s) comes from a counter that skipped positions do not advance: a group behind an unused id is written under the id of an earlier '
+                       'position, and its parameters are attached to another group on the next load' % sub.get('arg1'))
             elif sub.get('this') in elems and idv == 'unknown' and sub.get('arg2') == 'local:dataStartPosition':
                 ck.shape('groups', ck.where(lp), 'the id handed to Group::write is %s, which the rule cannot relate to the position' % sub.get('arg1'))
             else:
